@@ -2,12 +2,15 @@ package main
 
 import (
 	"bufio"
+	"bytes"
 	"fmt"
 	"io"
 	"math"
 	"sort"
+	"runtime"
 	"strconv"
 	"strings"
+	"sync"
 
 	ogorek "github.com/kisielk/og-rek"
 )
@@ -174,7 +177,16 @@ func runEnc(args []string) (out string) {
 		dst = bw
 		w.failAt = -1
 	}
-	enc := ogorek.NewEncoderWithConfig(dst, &ogorek.EncoderConfig{Protocol: proto, StrictUnicode: args[1] == "1", PersistentRef: p.getref})
+	ncalls, nhits := 0, 0
+	getref := func(obj any) *ogorek.Ref {
+		ncalls++
+		r := p.getref(obj)
+		if r != nil {
+			nhits++
+		}
+		return r
+	}
+	enc := ogorek.NewEncoderWithConfig(dst, &ogorek.EncoderConfig{Protocol: proto, StrictUnicode: args[1] == "1", PersistentRef: getref})
 	var err error
 	panicked := func() (msg string) {
 		defer func() {
@@ -196,7 +208,7 @@ func runEnc(args []string) (out string) {
 	if fmt.Sprintf("%#v", v) != before {
 		mutated = "1"
 	}
-	tail := fmt.Sprintf(" #writes=%d #after=%d #mutated=%s", len(w.writes), w.after, mutated)
+	tail := fmt.Sprintf(" #writes=%d #after=%d #mutated=%s #getref=%d/%d", len(w.writes), w.after, mutated, nhits, ncalls)
 	switch {
 	case panicked != "":
 		return "panic " + strings.ReplaceAll(panicked, " ", "_") + tail
@@ -258,6 +270,192 @@ func runDecStable(args []string) string {
 	return "stable"
 }
 
+// chunkReader delivers data according to a schedule of chunk sizes; a 0 entry is a Read that
+// returns (0, nil); with eofWithData the last chunk is returned together with io.EOF.
+type chunkReader struct {
+	data        []byte
+	sizes       []int
+	i           int
+	eofWithData bool
+}
+
+func (c *chunkReader) Read(p []byte) (int, error) {
+	if len(c.data) == 0 {
+		return 0, io.EOF
+	}
+	n := len(c.data)
+	if c.i < len(c.sizes) {
+		n = c.sizes[c.i]
+		c.i++
+	}
+	if n == 0 {
+		return 0, nil
+	}
+	if n > len(c.data) {
+		n = len(c.data)
+	}
+	if n > len(p) {
+		n = len(p)
+	}
+	copy(p, c.data[:n])
+	c.data = c.data[n:]
+	if len(c.data) == 0 && c.eofWithData {
+		return n, io.EOF
+	}
+	return n, nil
+}
+
+// runDecChunk: decchunk <pd> <su> <lm> <schedule> <hex>; schedule = comma separated chunk sizes,
+// optionally followed by "E" (deliver the final chunk together with io.EOF); sizes repeat the
+// last entry when exhausted if the schedule ends with "*".
+func runDecChunk(args []string) string {
+	data := []byte{}
+	if len(args) > 4 {
+		data = []byte(unhex(args[4]))
+	}
+	spec := args[3]
+	cr := &chunkReader{data: data}
+	if strings.HasSuffix(spec, "E") {
+		cr.eofWithData = true
+		spec = strings.TrimSuffix(spec, "E")
+	}
+	repeat := strings.HasSuffix(spec, "*")
+	spec = strings.TrimSuffix(spec, "*")
+	for _, x := range strings.Split(spec, ",") {
+		if x == "" {
+			continue
+		}
+		n, _ := strconv.Atoi(x)
+		cr.sizes = append(cr.sizes, n)
+	}
+	if repeat && len(cr.sizes) > 0 {
+		last := cr.sizes[len(cr.sizes)-1]
+		if last > 0 {
+			for len(cr.sizes)*1 < len(data)+8 {
+				cr.sizes = append(cr.sizes, last)
+			}
+		}
+	}
+	cfg, h := decCfg(args[0], args[1], args[2])
+	rs := decodeStream(cr, cfg, len(data)+3)
+	out := showDecRes(rs)
+	if h != nil {
+		out += " #log " + strings.Join(h.calls, " ; ")
+	}
+	return out
+}
+
+// runConc: N goroutines, each with its own Encoder / Decoder (modes enc, dec), or all reading one
+// shared decoded value (mode read); per-goroutine results must equal the sequential ones.
+//   conc enc  <N> <procs> <strict> <value tokens>
+//   conc dec  <N> <procs> <pd> <su> <hex>
+//   conc read <N> <procs> <pd> <su> <hex>
+func runConc(args []string) string {
+	mode := args[0]
+	n, _ := strconv.Atoi(args[1])
+	procs, _ := strconv.Atoi(args[2])
+	old := runtime.GOMAXPROCS(procs)
+	defer runtime.GOMAXPROCS(old)
+	const rounds = 8
+	work := make([]func() string, n)
+	switch mode {
+	case "enc":
+		for i := 0; i < n; i++ {
+			proto := i % 6
+			toks := args[4:]
+			strict := args[3] == "1"
+			work[i] = func() string {
+				// every goroutine builds its own value and its own Encoder
+				p := &encParser{parser: parser{toks: toks}, refs: map[uintptr]*ogorek.Ref{}}
+				rv := p.rvalue()
+				var v any
+				if rv.IsValid() {
+					v = rv.Interface()
+				}
+				var b bytes.Buffer
+				err := ogorek.NewEncoderWithConfig(&b, &ogorek.EncoderConfig{Protocol: proto, StrictUnicode: strict, PersistentRef: p.getref}).Encode(v)
+				if err != nil {
+					return "err " + ogorek.VerifEncErrClass(err)
+				}
+				// order of dict entries is random: compare what the bytes decode to
+				d, derr := ogorek.NewDecoderWithConfig(&b, &ogorek.DecoderConfig{PyDict: true, StrictUnicode: true}).Decode()
+				if derr != nil {
+					return "decerr " + ogorek.VerifErrClass(derr)
+				}
+				return fmt.Sprintf("%d:%s", b.Len(), dumpVal(d))
+			}
+		}
+	case "dec":
+		data := unhex(args[5])
+		cfg := &ogorek.DecoderConfig{PyDict: args[3] == "1", StrictUnicode: args[4] == "1"}
+		for i := 0; i < n; i++ {
+			work[i] = func() string {
+				return showDecRes(decodeStream(strings.NewReader(data), cfg, len(data)+3))
+			}
+		}
+	case "read":
+		data := unhex(args[5])
+		cfg := &ogorek.DecoderConfig{PyDict: args[3] == "1", StrictUnicode: args[4] == "1"}
+		shared, err := ogorek.NewDecoderWithConfig(strings.NewReader(data), cfg).Decode()
+		if err != nil {
+			return "skip"
+		}
+		for i := 0; i < n; i++ {
+			proto := i % 6
+			work[i] = func() string {
+				out := dumpVal(shared) // Len / Iter on every Dict and map inside
+				if d, ok := shared.(ogorek.Dict); ok {
+					var gets []string
+					d.Iter()(func(k, v any) bool {
+						got, _ := d.Get_(k)
+						gets = append(gets, dumpVal(k)+"="+dumpVal(got))
+						return true
+					})
+					sort.Strings(gets)
+					out += "|" + strings.Join(gets, "|")
+				}
+				var b bytes.Buffer
+				if err := ogorek.NewEncoderWithConfig(&b, &ogorek.EncoderConfig{Protocol: proto}).Encode(shared); err == nil {
+					d2, _ := ogorek.NewDecoderWithConfig(&b, cfg).Decode()
+					out += "#" + dumpVal(d2)
+				} else {
+					out += "#err"
+				}
+				return out
+			}
+		}
+	default:
+		return "DRIVER-ERROR bad conc mode"
+	}
+	want := make([]string, n)
+	for i := range work {
+		want[i] = work[i]()
+	}
+	got := make([][]string, n)
+	var wg sync.WaitGroup
+	start := make(chan struct{})
+	for i := range work {
+		wg.Add(1)
+		go func(i int) {
+			defer wg.Done()
+			<-start
+			for r := 0; r < rounds; r++ {
+				got[i] = append(got[i], work[i]())
+			}
+		}(i)
+	}
+	close(start)
+	wg.Wait()
+	for i := range work {
+		for r, g := range got[i] {
+			if g != want[i] {
+				return fmt.Sprintf("MISMATCH goroutine=%d round=%d concurrent=%.200s sequential=%.200s", i, r, g, want[i])
+			}
+		}
+	}
+	return "ok"
+}
+
 // handleMore: commands beyond decoding.
 func handleMore(f []string) (string, bool) {
 	switch f[0] {
@@ -269,6 +467,10 @@ func handleMore(f []string) (string, bool) {
 		return runConv(f[1:]), true
 	case "decstable":
 		return runDecStable(f[1:]), true
+	case "decchunk":
+		return runDecChunk(f[1:]), true
+	case "conc":
+		return runConc(f[1:]), true
 	case "enc":
 		return runEnc(f[1:]), true
 	case "fmtg":
